@@ -74,6 +74,11 @@ type interp struct {
 	nTrue, nFalse   [4]int
 	nFast           int
 	nMerges         int
+	listIDs         map[valKey]int // identities of slice-of-slices values (lists.go)
+	lemmas          map[string]string // module callee (full name) -> lemma used instead of expanding it
+	lemmasUsed      map[string]bool
+	modular         map[string]*ModSpec
+	loopEntryCap    int // > 0: entry states of loops are reduced to this many disjuncts
 }
 
 // Hooks lets a property attach contracts.
@@ -87,7 +92,7 @@ type Hooks struct {
 
 func newInterp(prog *core.Program, K, depth int) *interp {
 	return &interp{prog: prog, at: newAtoms(), K: K, maxDepth: depth, frames: map[string]frameID{},
-		obls: map[string]*Oblig{}, forests: map[*ssa.Function]*forest{}, funcs: map[*ssa.Function]bool{}, loopMemo: map[string]*loopMemo{}, sentinels: map[*ssa.Global]bool{}, retCap: 8, inlinedClosures: map[*ssa.Function]bool{}}
+		obls: map[string]*Oblig{}, forests: map[*ssa.Function]*forest{}, funcs: map[*ssa.Function]bool{}, loopMemo: map[string]*loopMemo{}, sentinels: map[*ssa.Global]bool{}, retCap: 8, inlinedClosures: map[*ssa.Function]bool{}, lemmasUsed: map[string]bool{}}
 }
 
 func (it *interp) frameFor(parent frameID, site ssa.Instruction, fn *ssa.Function) frameID {
@@ -427,7 +432,7 @@ func (it *interp) zeroRep(t types.Type) rep {
 // load reads location a of type t. Unknown content gets a fresh representation keyed by the
 // loading instruction and is remembered so that a re-load observes the same value.
 func (it *interp) load(d *disjunct, f frameID, a addr, t types.Type, by ssa.Value) rep {
-	if strings.Contains(a.path, "[*]") {
+	if strings.Contains(a.path, "[*]") || (isListAddr(a) && !strings.HasSuffix(a.path, ".last")) {
 		return it.freshRep(d, f, by, t)
 	}
 	k := a.key()
@@ -452,6 +457,28 @@ func (it *interp) load(d *disjunct, f frameID, a addr, t types.Type, by ssa.Valu
 
 // store writes location a; invalidates overlapping and possibly aliasing cells.
 func (it *interp) store(d *disjunct, f frameID, a addr, t types.Type, val rep, v ssa.Value) {
+	if isListAddr(a) {
+		// the ghost cell "last element of list Ln" (lists.go): a store to the last element rewrites it, a
+		// store to an element that may be the last one forgets it, a store to an earlier element leaves it
+		// alone; a store into a list without identity forgets every ghost cell
+		switch {
+		case strings.HasPrefix(a.path, "L0."):
+			for mk, c := range d.mem {
+				if c != nil && isListAddr(c.a) {
+					delete(d.mem, mk)
+				}
+			}
+		case strings.HasSuffix(a.path, ".before"):
+		default:
+			last := strings.TrimSuffix(strings.TrimSuffix(a.path, ".maybe"), ".last") + ".last"
+			lk := addr{root: a.root, path: last}
+			delete(d.mem, lk.key())
+			if strings.HasSuffix(a.path, ".last") && val.kind == kSlice {
+				d.mem[lk.key()] = &memCell{a: lk, val: val, typ: t}
+			}
+		}
+		return
+	}
 	k := a.key()
 	rootPrefix := fmt.Sprintf("%d:%p", a.root.f, a.root.v)
 	for mk, c := range d.mem {
